@@ -571,6 +571,7 @@ package cluster
 //@        istype(arg2, *ActivationRequest) && arg2.(*ActivationRequest).Kind == kind && arg2.(*ActivationRequest).ID == config.id && loglen == entry(loglen)
 //@   ghost at call bcast#1 before: assert[C19.activate.announces-the-new-pid] arg0 == a && istype(arg1, *Activation) && arg1.(*Activation) != nil && arg1.(*Activation).PID == activationResp.PID && !old(has(a.activated, kind + "/" + config.id))
 //@   ghost at return#4: assert[C19.activate.returns-the-activated-pid] result == activationResp.PID
+//@   ghost at entry: announced = false
 //@   ghost at call bcast#1: announced = true
 //@   ghost at return#4: assert[C19.activate.success-is-announced] announced
 
